@@ -50,6 +50,7 @@ def archNum : Option Arch → Nat
   | none => 0
   | some .x86 => 1
   | some .x64 => 2
+  | some .a64 => 6
 
 def optStr : Option Nat → String
   | none => "none"
@@ -79,12 +80,12 @@ def renderEmitter (i : Nat) (e : Emitter) : String :=
      | k =>
        "nodes" ++ renderNodes e.nodes ++ ":cur" ++ (match e.cursor with | none => "-1" | some c => toString c) ++
        ":ln" ++ toString e.labelNodes ++ ":sn" ++ toString e.sectionNodes ++ ":p" ++ toString e.passes ++
-       (if k = .cmp then ":vr" ++ toString e.vregs ++ ":ja" ++ toString e.janns ++ ":fn0" else "")) ++ "]"
+       (if k = .cmp then ":vr" ++ toString e.vregs ++ ":ja" ++ toString e.janns ++ ":fn0:pd0:wr0" else "")) ++ "]"
 
 /-- the `code|…` part of a dump: a function of `w.obs` only (theorem `dumpCode_obs`) -/
 def dumpCode (w : World) : String :=
   let h := w.h
-  "code|" ++ (match h.arch with | none => "uninit" | some .x64 => "x64" | some .x86 => "x86") ++
+  "code|" ++ (match h.arch with | none => "uninit" | some .x64 => "x64" | some .x86 => "x86" | some .a64 => "a64") ++
   ";secs=" ++ joinMap (enum h.secs) (fun (i, s) =>
     "[" ++ toString i ++ ":" ++ hexBytes s.name ++ ":" ++ toString s.flags ++ ":" ++ toString s.align ++ ":" ++ toString s.order ++ ":" ++
     (if s.hasOffset then "0" else "none") ++ ":0:" ++ hexBytes s.bytes ++ "]") ++
@@ -130,5 +131,21 @@ def noResidue (recycled fresh : String) : Option String :=
   let b := codePart fresh
   if a.isEmpty || !a.startsWith "code|" then some "malformed"
   else firstDiff (a.splitOn ";") (b.splitOn ";")
+
+/-- the decimal number that follows the first occurrence of `tag` -/
+def numAfter (s tag : String) : Option Nat :=
+  match s.splitOn tag with
+  | _ :: rest :: _ => (String.ofList (rest.toList.takeWhile Char.isDigit)).toNat?
+  | _ => none
+
+/-- **no memory of the earlier use is referenced**: between two API calls no Builder/Compiler node may carry pass data
+    (`RAInst` / `RABlock` live in the pass arena, which `run_passes` resets) and no virtual register may still be tied to
+    a work register.  `none` = fine; `some c` names the offending counter of the dump. -/
+def noDeadRefs (dump : String) : Option String :=
+  let c := codePart dump
+  match numAfter c ":pd", numAfter c ":wr" with
+  | some n, some m => if n != 0 then some "pd (nodes still pointing into the reset pass arena)"
+                      else if m != 0 then some "wr (virtual registers still tied to a work register)" else none
+  | _, _ => none
 
 end AsmjitVerif.Reuse
